@@ -12,7 +12,7 @@ OPT_QUICK_ALL = True      # every partition also in a child interpreter started 
 LEVEL = "model_checking"
 TECHNIQUE = "exhaustive enumeration of (status byte x sense x transport x call path x raw flag) at depth 1 and of all status/command histories up to a depth bound on real device objects over stand-in bindings, judged by a status->outcome reference model"
 RULE = ("depth 1: all 256 status bytes x {SG_IO, iSCSI} x {device.execute, SCSI.execute} x raw-sense {off,on} x (READ(10) x 5 sense buffers + 7 other commands incl. ATA PASS-THROUGH with/without CK_COND), and all 256 "
-        "status bytes x both transports x each of the 38 facade methods on every command set offering it x 2 sense buffers; the same command inside `with device:` / `with SCSI(device):` blocks x 8 statuses x 6 values handed back by the binding's disconnect (the error must leave the block); histories: all "
+        "status bytes x both transports x each of the 38 facade methods on every command set offering it x 2 sense buffers, and CHECK CONDITION x 6 sense keys x 6 additional sense codes (thorough: 16 x 12) x fixed / descriptor format through every facade method; the same command inside `with device:` / `with SCSI(device):` blocks x 8 statuses x 6 values handed back by the binding's disconnect (the error must leave the block); histories: all "
         "sequences up to length L (3 quick, 4 thorough) over {GOOD, CHECK CONDITION, BUSY, RESERVATION CONFLICT, 7Fh} x {TEST UNIT READY, "
         "READ(10), INQUIRY} on one device per transport, every step judged and every GOOD step's result compared with the target, once with a fresh facade call per step and once with one command object per kind submitted again at every step (retry loop); each CHECK CONDITION step carries its own distinct sense data; later steps also range over ATA PASS-THROUGH(16) facade calls (GOOD / CHECK CONDITION / transport I/O error), a refused ATA call (no block size) and transport errors during TEST UNIT READY (EIO, ENODEV, ENODEV while the node is being replaced). "
         "states = distinct canonical device/facade snapshots reached, transitions = commands executed in histories. Non-trivial = status "
@@ -157,6 +157,9 @@ def run_case(case, obs=None):
             rig.close()
     if mode == "facade":
         _, tr, method, st, status, sensekind = case
+        if sensekind.startswith("kx") and sensekind not in SENSES:
+            k_, a_, q_ = int(sensekind[3], 16), int(sensekind[4:6], 16), int(sensekind[6:8], 16)
+            SENSES[sensekind] = ((fixed_sense if sensekind[2] == "f" else desc_sense)(k_, a_, q_), (k_, a_, q_))
         rig = harness.Rig(tr, F.SET_TO_TYPE[st])
         try:
             s = rig.facade()
@@ -360,6 +363,19 @@ def run_partition(part, tier, seed):
                     acc.transitions += 1
     elif part[0] == "facade":
         _, tr, m = part
+        # CHECK CONDITION with every sense key x additional sense codes a maintainer might think "harmless" (recovered error, rounded
+        # parameter, failure prediction, no sense, becoming ready, power on, ...), fixed and descriptor format: it is an error all the same
+        st0 = F.sets_offering(m)[0]
+        full = tier != "quick"
+        for key in (range(16) if full else (0x0, 0x1, 0x2, 0x6, 0xB, 0xF)):
+            for asc, ascq in (((0x00, 0x00), (0x37, 0x00), (0x5D, 0x00), (0x0B, 0x01), (0x17, 0x01), (0x18, 0x00), (0x04, 0x01), (0x29, 0x00), (0x2A, 0x01), (0x3F, 0x0E), (0x00, 0x06), (0x00, 0x16))
+                              if full else ((0x00, 0x00), (0x37, 0x00), (0x5D, 0x00), (0x17, 0x01), (0x04, 0x01), (0x29, 0x00))):
+                for fmtc in ("f", "d"):
+                    sk = "kx%s%x%02x%02x" % (fmtc, key, asc, ascq)
+                    SENSES[sk] = ((fixed_sense if fmtc == "f" else desc_sense)(key, asc, ascq), (key, asc, ascq))
+                    do(["facade", tr, m, st0, 0x02, sk], True)
+                    acc.traces += 1
+                    acc.transitions += 1
         for st in F.sets_offering(m):
             for status in range(256):
                 for sk in ("fixed18", "desc8") + (("nosense",) if status == 2 else ()):
